@@ -221,6 +221,15 @@ func evAnnotate(node, v string) h.Event {
 	}}
 }
 
+// evRegisterNode: one more instance joins the group's ASG and registers its Node right away.
+func evRegisterNode(g h.GroupSpec) h.Event {
+	return h.Event{Label: "register-node(" + g.Opts.Name + ")", Apply: func(hh *h.Hist) {
+		if a := hh.W.FindASG(g.ASG.Name); a != nil && a.Desired < a.Max {
+			hh.W.AddNode(a, sim.NodeOpt{})
+		}
+	}}
+}
+
 func evRestart() h.Event {
 	return h.Event{Label: "restart", Apply: func(hh *h.Hist) { hh.Restart = true }}
 }
